@@ -40,6 +40,10 @@ func genC16(r *simrt.RNG, tier string, variant int) Plan {
 				op.Kind, op.N = "revsub", Pick(r, []int{0, 2, 10, 30}) // the server subscribes to a stream of the client
 			} else if r.Bool(0.15) {
 				op.Kind, op.N = "notifyrev", 0 // a notification whose handler calls back
+			} else if r.Bool(0.15) {
+				// an ordinary (forward) subscription next to the reverse traffic: streams
+				// then flow in both directions on one connection, with coinciding ids
+				op.Kind, op.N, op.Hold, op.IgnoreCtx = "sub", Pick(r, []int{2, 10, 30}), false, false
 			}
 			p.Ops = append(p.Ops, op)
 			tok++
@@ -192,6 +196,14 @@ func runC16(e *Env, p *Plan) {
 				} else if !faultyConn[cp.Name] && parts[0] != itoa(op.N) {
 					e.Violate("C16.reverse-identity", "reverse subscription tok=%d on healthy client %s: the server received %s of %d values", t.ID, cp.Name, parts[0], op.N)
 				}
+			}
+			continue
+		}
+		if op.Kind == "sub" && op.Client < len(p.Clients) {
+			cp := p.Clients[op.Client]
+			t, st := e.Tok(op.Tok), e.Sub(op.Tok)
+			if cp.Kind == "ws" && !faultyConn[cp.Name] && t.Returned && t.RetErr == nil && (len(st.Received) != op.N || !st.Closed) {
+				e.Violate("C16.forward-calls-intact", "forward subscription tok=%d on healthy client %s, sharing the connection with reverse traffic: received %d of %d values, closed=%v", op.Tok, cp.Name, len(st.Received), op.N, st.Closed)
 			}
 			continue
 		}
